@@ -976,6 +976,17 @@ func (g *bundleGen) ensureAuxUsed() {
 			switch g.r.Intn(4) {
 			case 0:
 				rd.defs[holder] = obj{"type": "object", "properties": obj{"ext": ref}}
+				if g.on("collideGenerated") && g.r.P(35) {
+					// an existing definition already bears (up to case) the name Flatten would generate for this location
+					taken := upperFirst(holder) + "Ext"
+					if g.r.P(50) {
+						taken = holder + "Ext"
+					}
+					if _, exists := rd.defs[taken]; !exists {
+						rd.defs[taken] = obj{"type": "string", "description": "pre-existing"}
+						rd.defNames = append(rd.defNames, taken)
+					}
+				}
 			case 1:
 				rd.defs[holder] = obj{"type": "array", "items": ref}
 			case 2:
@@ -1201,7 +1212,12 @@ func (g *bundleGen) plantAnonPointers() {
 		// operation's body parameter / response
 		uses := r.Range(1, 2)
 		for u := 0; u < uses; u++ {
-			switch r.Intn(3) {
+			switch r.Intn(4) {
+			case 3:
+				// the holder is a top-level definition that is nothing but the pointer (an alias)
+				name := fmt.Sprintf("ptrAlias%d%d", i, u)
+				rd.defs[name] = deepCopy(ref)
+				rd.defNames = append(rd.defNames, name)
 			case 0:
 				name := fmt.Sprintf("ptrHolder%d%d", i, u)
 				rd.defs[name] = obj{"type": "object", "properties": obj{"via": deepCopy(ref)}}
